@@ -265,6 +265,14 @@ def do_check(prop, tier, keep=False, only=None, verbose=False):
             else:
                 expanded.append(j)
         jobs = expanded
+        if tier == 'quick' and not os.environ.get('VP_ALL_CANARIES'):
+            # vacuity canary once per contract family (job name without its instantiation suffix); all of them in the thorough tier
+            fam = set()
+            for j in jobs:
+                f = re.sub(r'\.[^.]+$', '', j.name)
+                if f in fam and j.canary in ('ensures', 'signal'):
+                    j.canary = 'sampled-out'
+                fam.add(f)
         # 2. known findings
         findings = [f for f in load_findings() if f['property'] == prop and f.get('status', 'open') == 'open']
         # 3. run
